@@ -92,7 +92,7 @@ func (h *HistSys) Init(w *world.World) {
 
 func (h *HistSys) curReplicas(w *world.World) int {
 	switch h.Class.Kind {
-	case "sts", "stsmulti", "ststwin":
+	case "sts", "stsmulti", "ststwin", "stspool":
 		return w.Replicas("StatefulSet", "ns", "a")
 	case "dp", "dppool":
 		return w.Replicas("Deployment", "ns", "d")
